@@ -123,7 +123,10 @@ void cpc_union_alloc<A>::internal_update(S&& sketch) {
         cpc_sketch_alloc<A>::flavor::SPARSE != initial_dest_flavor) throw std::logic_error("wrong flavor");
 
     // The following partially fixes the snowplow problem provided that the K's are equal.
-    if (cpc_sketch_alloc<A>::flavor::EMPTY == initial_dest_flavor && lg_k == sketch.get_lg_k()) {
+    // The accumulator object is released through accumulator->get_allocator(): it may adopt the incoming sketch
+    // only if that does not change this allocator (assignment propagates the allocator of the source)
+    if (cpc_sketch_alloc<A>::flavor::EMPTY == initial_dest_flavor && lg_k == sketch.get_lg_k()
+        && accumulator->get_allocator() == sketch.get_allocator()) {
       *accumulator = std::forward<S>(sketch);
       return;
     }
